@@ -385,6 +385,7 @@ func mix(name string, xs ...float64) float64 {
 	return h
 }
 
+func Summarise_(fn string) {}
 func LogStart()              {}
 func LogStop()               {}
 func Summarise(fn string)    {}
